@@ -86,7 +86,7 @@ PROP = {
     "level_text": "Machine-checked (Lean 4) theorems over an executable model of the poison middleware composed with the Router's settle rule; "
                   "the model is tied to the current source by a generated deep embedding with an equality theorem, by structural facts and by "
                   "differential execution of the real code.",
-    "level_note": "Proved about the model, not about the Go code; the tie is checked on every run (generated body + interpreter, facts, "
+    "level_note": "The Router settle rule is derived from the handleMessage model of C02 (Props/C13Router.lean) and PoisonQueue(Retry(h)) is composed from three tied models (Props/C13Retry.lean); the ties of handleMessage and of the retry loop are re-proved in this check. Proved about the model, not about the Go code; the tie is checked on every run (generated body + interpreter, facts, "
                   "differential harness). multierror/pkg-errors behaviour and the Router's settle rule are modelled, not verified here.",
     "technique": "Lean 4 theorems over a hand-written executable model + generated deep-embedded body with tie theorem + differential correspondence check against the Go code",
 }
